@@ -29,7 +29,7 @@ checks = {
    note="Trusted: sync.Mutex; the slice reference implementations in the harness. How far ahead a combinator may pull is C12's question and deliberately not checked; consumers always call HasNext before Next.",
    technique="deterministic simulation: seeded scheduler over consumer calls + stalled-source fault under the library lock, slice reference model, pull counters"),
  "C02": dict(cat="fault_enumeration", design="DESIGN.md §4 C02",
-   text="Fault plans over instrumented callbacks. A generated table (about 900 entries: try/option/either/statet x Map2-9/LiftA2-9/FlatMap2-9/LiftM2-9/Flap1-9/Method1-9/FlatMethod1-9/Compose2-5/Zip/Zip3/Ap/ApFunc/Flatten/Map/FlatMap/Lift/LiftM/Replace/With/FlapMap/FlatFlapMap/Sequence*/Traverse* (8 variants)/FlatMapTraverse*/FoldM over 0-5 elements, and Chain1-9/Applicative1-9 builders of try and option with the argument variant of every position drawn from the seed) is executed under the no-fault plan, EVERY single-fault plan and seeded multi-fault plans: result must be the failure of the left-most faulted position with that position's own sentinel, callbacks before it ran exactly once in order and none after it. Recover*/Or*/OrElse* of Try/Option/Either/StateT are swept over receiver x handler behaviour (handlers run iff the receiver failed, successes unchanged, handler gets the receiver's own error). try.Of/Call/CallUnit and future.Apply/Apply2/Func0-3/Unit1 (the latter under the seeded task scheduler and every executor kind) are run with normal, error-returning and panicking bodies over six panic values: Failure must expose the panic value, a normal return is never turned into a failure, the future always completes. A fatal stack overflow is attributed to the case through the crash journal.",
+   text="Fault plans over instrumented callbacks. A generated table (about 900 entries: try/option/either/statet x Map2-9/LiftA2-9/FlatMap2-9/LiftM2-9/Flap1-9/Method1-9/FlatMethod1-9/Compose2-5/Zip/Zip3/Ap/ApFunc/Flatten/Map/FlatMap/Lift/LiftM/Replace/With/FlapMap/FlatFlapMap/Sequence*/Traverse* (8 variants)/FlatMapTraverse*/FoldM over 0-5 elements, and the hand-written combinators outside the generated families - statet.ApTry/ApOption/FlatMapConst/WithState/MapWithState/MapT/MapWithStateT/ModifyT/GetST/Concat, the Map/FlatMap/Foreach/All/Filter methods of fp.Try and fp.Option, try.ComposeOption/ComposePure/Traverse_/TraverseOption and try's OptionT/SeqT helpers - and Chain1-9/Applicative1-9 builders of try and option with the argument variant of every position drawn from the seed) is executed under the no-fault plan, EVERY single-fault plan and seeded multi-fault plans: result must be the failure of the left-most faulted position with that position's own sentinel, callbacks before it ran exactly once in order and none after it. Recover*/Or*/OrElse* of Try/Option/Either/StateT are swept over receiver x handler behaviour (handlers run iff the receiver failed, successes unchanged, handler gets the receiver's own error). try.Of/Call/CallUnit and future.Apply/Apply2/Func0-3/Unit1 (the latter under the seeded task scheduler and every executor kind) are run with normal, error-returning and panicking bodies over twelve panic values (strings, errors, ints, structs, typed nil pointers and genuine runtime.Error panics: nil map write, nil dereference, index out of range, divide by zero, failed type assertion): a panic must not escape, Failure must expose the panic value, a normal return is never turned into a failure, the future always completes. A fatal stack overflow is attributed to the case through the crash journal.",
    note="Single-fault plans are complete for every case a run visits; which cases are visited and all multi-fault plans are sampled from the seed (a quick run visits every table entry many times). Only the future.Apply family has a schedule; the rest are single-task fault-plan runs (stated in the evidence run classes). panic(nil) is excluded.",
    technique="fault injection through instrumented callbacks: complete single-fault enumeration + seeded multi-fault plans per combinator instance; seeded scheduler for future.Apply*"),
  "C03": dict(cat="exploration", design="DESIGN.md §4 C03",
@@ -41,9 +41,9 @@ checks = {
    note="Views (Take/Drop/Tail/Init) may share storage, only writes are violations. A builder that refuses (panics) when used after Build is accepted. No intra-operation interleaving exists; client interleaving is at operation granularity. Element type is int; the mutable package is excluded as the property says.",
    technique="deterministic simulation (history leg): seeded multi-client branching histories, aliasing-layout and builder-reuse faults, API-content and raw-memory snapshots re-compared after every event"),
  "C15": dict(cat="fault_enumeration", design="DESIGN.md §4 C15",
-   text="PARTIAL claim (byte-level part only). A seeded value of fp.Option[T] (T = int incl. extremes, string with escapes, float64, bool, nested Option, []int, map[string]int, struct with Option fields, *int; top-level and inside slices/maps/structs) or fp.Unit is marshalled into a simulated byte store. Fault-free class: json.Unmarshal and json.Decoder (over a short-reading io.Reader) give back a deep-equal value, None <=> null both ways, bytes equal encoding/json of the plain value. Fault class: torn write at EVERY offset of the record (complete), plus seeded bit flips, byte duplication/deletion, splice, zero fill, whitespace, concatenated records, and a reader error mid-stream; decoding into a pre-populated target must never panic, and when it returns an error an Option/Unit target must be unchanged.",
-   note="NOT decided here: the quantifier over @fp.Json struct shapes and the equality with the Mutable twin's encoding (statements about gombok-generated programs, see C07 - not a simulation target). Values whose own encoding is null are excluded as the property says. 'Unchanged on error' is required of Option/Unit targets only, not of plain containers encoding/json itself fills incrementally.",
-   technique="fault injection on the byte store / io.Reader seam: exhaustive torn-write offsets + seeded corruption per record, round-trip and target-unchanged oracles"),
+   text="A seeded value is marshalled into a simulated byte store: fp.Option[T] (T = int incl. extremes, string with escapes and control bytes, float64, bool, nested Option, []int, map[string]int, struct with Option fields, *int; top-level and inside slices/maps/structs), fp.Unit, and the @fp.Json value types gombok generated in the repository (testpk1.World with a time.Time field, docexample.Address, testpk2.Greeting nesting World; top-level and inside slices/maps; reached through the tag-guarded alias package test/verifjson). Fault-free class: json.Unmarshal and json.Decoder (over a short-reading io.Reader) give back a deep-equal value, None <=> null both ways, bytes equal encoding/json of the plain value / of the public Mutable twin. Fault class: torn write at EVERY offset of the record (complete), plus seeded bit flips, byte duplication/deletion, splice, zero fill, whitespace, concatenated records, misdirected read (an intact record of another schema), a reader error mid-stream, and the raw bytes handed straight to the target's own UnmarshalJSON; decoding into a pre-populated target must never panic, and when it returns an error an Option / Unit / @fp.Json target must be unchanged.",
+   note="PARTIAL with respect to 'all @fp.Json struct shapes produced by the C07 grammar': only the three shapes committed in the repository are exercised (no Option-typed or nilable field among them); generating further shapes is program generation (C07, not a simulation target). Values whose own encoding is null are excluded as the property says. 'Unchanged on error' is required of Option/Unit/@fp.Json targets, not of plain containers encoding/json itself fills incrementally; the fault-free class decodes @fp.Json structs into a zero target because their UnmarshalJSON merges into the Mutable twin like encoding/json does for any struct.",
+   technique="fault injection on the byte store / io.Reader seam: exhaustive torn-write offsets + seeded corruption and misdirected reads per record, round-trip, twin-encoding and target-unchanged oracles"),
  "C13": dict(cat="exploration", design="DESIGN.md §4 C13",
    text="The nondeterminism the property names - Go's randomised map iteration inside gombok, template_gen and monad_gen - has no seam in the Go runtime, so the check manufactures one at run time: a scratch copy of the working tree is rewritten (go/types-based: every `range` over a map-typed expression and every maps.All/Keys/Values call in the packages the generators link, 37+2 sites today) to go through a drop-in that iterates in a permutation that is a pure function of (seed, call site, per-site counter); the three generators are built from that copy and run, exactly as `go generate` would run them (GOPACKAGE/GOFILE/GOLINE, cwd), for every go:generate directive of the repository on pristine scratch copies of the working tree, under 2 (quick) / 16 (thorough) seeds and GOMAXPROCS in {1,4,16}. Oracle per seed: the result is byte-identical to the working tree (fixpoint, hence identical across seeds; thorough regenerates a second time on top of the first output), every file with a 'Code generated ... DO NOT EDIT' header is written by some directive and generators write only such files. Sampling of iteration orders, not proof.",
    note="Stretch: the seam is manufactured by source rewriting of a scratch copy, never of /repo. Not owned: go/packages' `go list` subprocesses, and the base order of pointer keys without a position (process-dependent before the seeded shuffle) - a failure is reported with its seed and replayed with ./check replay. The scratch packages of C07/C08 mentioned in the quantifier do not exist (those properties are not applicable here).",
